@@ -19,3 +19,114 @@ package node
 //@   loop 1 invariant forall k int :: 0 <= k && k <= rangeindex ==> okRangeV(t.ranges[k], v)
 //@   loop 1 decreases len(t.ranges) - rangeindex
 //@   ensures (result == nil) == (forall k int :: 0 <= k && k < len(t.ranges) ==> okRangeV(t.ranges[k], v))
+
+// a string passes when it matches one of the patterns (invert-match honoured); no pattern: everything passes
+//@ macro patOK(p *meta.Pattern, s string) bool = rematch(p.regex, s) != p.inverted
+//@ func (fieldConstraints) patternCheck(s string, patterns []*meta.Pattern) error
+//@   mode int
+//@   property C05
+//@   requires forall k int :: 0 <= k && k < len(patterns) ==> patterns[k] != nil && patterns[k].regex != nil
+//@   assigns nothing
+//@   loop 1 invariant -1 <= rangeindex && rangeindex < len(patterns)
+//@   loop 1 invariant forall k int :: 0 <= k && k <= rangeindex ==> !patOK(patterns[k], s)
+//@   loop 1 decreases len(patterns) - rangeindex
+//@   ensures (result == nil) == (len(patterns) == 0 || (exists k int :: 0 <= k && k < len(patterns) && patOK(patterns[k], s)))
+
+// the length must be inside one alternative of every level
+//@ func (fieldConstraints) lenCheck(s string, lengths []*meta.Range) error
+//@   mode int
+//@   property C05
+//@   requires len(s) <= 2147483647
+//@   requires forall k int :: 0 <= k && k < len(lengths) ==> wfRangeO(lengths[k], val.Value(val.Int32(len(s))))
+//@   assigns nothing
+//@   loop 1 invariant -1 <= rangeindex && rangeindex < len(lengths)
+//@   loop 1 invariant forall k int :: 0 <= k && k <= rangeindex ==> okRangeV(lengths[k], val.Value(val.Int32(len(s))))
+//@   loop 1 decreases len(lengths) - rangeindex
+//@   ensures (result == nil) == (forall k int :: 0 <= k && k < len(lengths) ==> okRangeV(lengths[k], val.Value(val.Int32(len(s)))))
+
+//@ macro patsOK(t *meta.Type, s string) bool = len(t.patterns) == 0 || (exists k int :: 0 <= k && k < len(t.patterns) && patOK(t.patterns[k], s))
+//@ macro lensOK(t *meta.Type, s string) bool = forall k int :: 0 <= k && k < len(t.lengths) ==> okRangeV(t.lengths[k], val.Value(val.Int32(len(s))))
+//@ macro wfStrType(t *meta.Type, s string) bool = t != nil && len(s) <= 2147483647 \
+//@      && (forall k int :: 0 <= k && k < len(t.patterns) ==> t.patterns[k] != nil && t.patterns[k].regex != nil) \
+//@      && (forall k int :: 0 <= k && k < len(t.lengths) ==> wfRangeO(t.lengths[k], val.Value(val.Int32(len(s)))))
+
+//@ macro strOK(t *meta.Type, s string) bool = patsOK(t, s) && lensOK(t, s)
+//@ opaque strOKo(t *meta.Type, s string) bool = strOK(t, s)
+//@ opaque wfStrTypeO(t *meta.Type, s string) bool = wfStrType(t, s)
+
+//@ func (check fieldConstraints) checkString(s string, t *meta.Type) error
+//@   mode int
+//@   property C05
+//@   requires wfStrTypeO(t, s)
+//@   assigns nothing
+//@   ensures (result == nil) == strOK(t, s)
+//@   ensures (result == nil) == strOKo(t, s)
+
+// Abstractions used while verifying package node (implementations live in meta and val):
+// the type of a leaf, the text and the Go value of a typed value are deterministic functions of the receiver.
+//@ pure leafType(m meta.Leafable) *meta.Type
+//@ interface meta.Leafable.Type() *meta.Type
+//@   assigns nothing
+//@   ensures result == leafType(self)
+//@ pure strOf(v val.Value) string
+//@ interface val.Value.String() string
+//@   assigns nothing
+//@   ensures result === strOf(self)
+//@ pure goValOf(v val.Value) interface{}
+//@ interface val.Value.Value() interface{}
+//@   assigns nothing
+//@   ensures result == goValOf(self)
+
+// the write is allowed exactly when the value belongs to the leaf's effective type
+//@ macro rangesOK(t *meta.Type, v val.Value) bool = forall k int :: 0 <= k && k < len(t.ranges) ==> okRangeV(t.ranges[k], v)
+//@ func (check fieldConstraints) CheckFieldPreConstraints(r *FieldRequest, hnd *ValueHandle) (bool, error)
+//@   mode int
+//@   property C05
+//@   requires r != nil && hnd != nil && r.Meta != nil && leafType(r.Meta) != nil
+//@   requires hnd.Val != nil && leafType(r.Meta).format == val.FmtString ==> wfStrTypeO(leafType(r.Meta), strOf(hnd.Val))
+//@   requires hnd.Val != nil && leafType(r.Meta).format == val.FmtStringList ==> dyn(goValOf(hnd.Val)) == []string \
+//@            && (forall k int :: 0 <= k && k < len(goValOf(hnd.Val).([]string)) ==> wfStrTypeO(leafType(r.Meta), goValOf(hnd.Val).([]string)[k]))
+//@   requires hnd.Val != nil && leafType(r.Meta).format.IsNumeric() ==> \
+//@            (forall k int :: 0 <= k && k < len(leafType(r.Meta).ranges) ==> wfRangeO(leafType(r.Meta).ranges[k], hnd.Val))
+//@   assigns nothing
+//@   loop 1 invariant -1 <= rangeindex && rangeindex < len(strs)
+//@   loop 1 invariant forall k int :: 0 <= k && k <= rangeindex ==> strOKo(leafType(r.Meta), strs[k])
+//@   loop 1 decreases len(strs) - rangeindex
+//@   ensures result0 == (result1 == nil)
+//@   ensures hnd.Val == nil ==> result1 == nil
+//@   ensures hnd.Val != nil && leafType(r.Meta).format == val.FmtString ==> (result1 == nil) == strOKo(leafType(r.Meta), strOf(hnd.Val))
+//@   ensures hnd.Val != nil && leafType(r.Meta).format == val.FmtStringList ==> \
+//@           (result1 == nil) == (forall k int :: 0 <= k && k < len(goValOf(hnd.Val).([]string)) ==> strOKo(leafType(r.Meta), goValOf(hnd.Val).([]string)[k]))
+//@   ensures hnd.Val != nil && leafType(r.Meta).format.IsNumeric() ==> (result1 == nil) == rangesOK(leafType(r.Meta), hnd.Val)
+
+// ---- ghost protocol state: what the library asks of node implementations ---------------------------
+// fieldWrites counts Field requests with Write set that were issued to any node.
+//@ ghost var fieldWrites int
+
+//@ interface Node.Field(r FieldRequest, hnd *ValueHandle) error
+//@   assigns fieldWrites, hnd.Val
+//@   ensures r.Write ==> fieldWrites == old(fieldWrites) + 1
+//@   ensures !r.Write ==> fieldWrites == old(fieldWrites)
+
+// constraints may adjust the request and the value handle but never talk to nodes
+//@ interface FieldPreConstraint.CheckFieldPreConstraints(r *FieldRequest, hnd *ValueHandle) (bool, error)
+//@   assigns *r, hnd.Val
+//@   ensures r.Write == old(r.Write)
+//@ interface FieldPostConstraint.CheckFieldPostConstraints(r FieldRequest, hnd *ValueHandle) (bool, error)
+//@   assigns hnd.Val
+
+//@ func (self *Constraints) CheckFieldPreConstraints(r *FieldRequest, hnd *ValueHandle) (bool, error)
+//@   trusted
+//@   assigns *r, hnd.Val, self.compiled
+//@   ensures r.Write == old(r.Write)
+//@ func (self *Constraints) CheckFieldPostConstraints(r FieldRequest, hnd *ValueHandle) (bool, error)
+//@   trusted
+//@   assigns hnd.Val, self.compiled
+
+// C05: a write vetoed by a pre-constraint (or failing one) issues no Field request, and the veto is what is returned
+//@ func (sel *Selection) set(r *FieldRequest, hnd *ValueHandle) error
+//@   mode int
+//@   property C05
+//@   requires sel != nil && sel.Constraints != nil && sel.Node != nil && r != nil && hnd != nil
+//@   ensures (!proceed || constraintErr != nil) ==> fieldWrites == old(fieldWrites) && result == constraintErr
+//@   ensures proceed && constraintErr == nil ==> fieldWrites == old(fieldWrites) + 1
